@@ -10,18 +10,68 @@ namespace XpmVerif.Ident
 mutual
 def refsVal (mt : Nat → Option Bool) : Val → List Nat
   | .list l => refsVals mt l
-  | .dict _ vs => refsVals mt vs
+  | .dict ks vs => refsPairs mt ks vs
   | .ref n => [n]
   | _ => []
 def refsVals (mt : Nat → Option Bool) : List Val → List Nat
   | [] => []
   | v :: vs => if dropped mt v then refsVals mt vs else refsVal mt v ++ refsVals mt vs
+/-- like `encPairs`: only the values that have a key are items of the dict. -/
+def refsPairs (mt : Nat → Option Bool) : List (List Nat) → List Val → List Nat
+  | _ :: ks, v :: vs => if dropped mt v then refsPairs mt ks vs else refsVal mt v ++ refsPairs mt ks vs
+  | _, _ => []
 end
 
-/-- configurations whose identifier (or cycle reference) enters the stream of `nd`. -/
-def nodeRefs (mt : Nat → Option Bool) (self : Nat) (nd : Node) : List Nat :=
+/-! ### which configurations does `_is_default(default, value)` compute (in order)
+
+    `onst v` = `id(value) in config_path.config2index`.  For a `Config`/`Config` pair whose value is not
+    being hashed *both* identifiers are computed; `and` / `all(...)` stop at the first `False`. -/
+
+mutual
+def defRefs (onst : Nat → Bool) (ceq : Nat → Nat → Bool) (mt : Nat → Option Bool) : Val → Val → List Nat
+  | .ref d, v => (match v with
+      | .ref v => if onst v then [] else [d, v]
+      | _ => [])
+  | .list a, v => (match v with
+      | .list b =>
+        let b' := b.filter (fun x => !dropped mt x)
+        if a.length = b'.length then defRefsL onst ceq mt a b' else []
+      | _ => [])
+  | .dict ka va, v => (match v with
+      | .dict kb vb =>
+        let kept := (kb.zip vb).filter (fun kv => !dropped mt kv.2)
+        if sameKeys ka (kept.map (·.1)) then defRefsKV onst ceq mt ka va (kept.map (·.1)) (kept.map (·.2)) else []
+      | _ => [])
+  | _, _ => []
+def defRefsL (onst : Nat → Bool) (ceq : Nat → Nat → Bool) (mt : Nat → Option Bool) : List Val → List Val → List Nat
+  | a :: as, b :: bs =>
+    defRefs onst ceq mt a b ++ (if isDefault ceq mt a b then defRefsL onst ceq mt as bs else [])
+  | _, _ => []
+def defRefsKV (onst : Nat → Bool) (ceq : Nat → Nat → Bool) (mt : Nat → Option Bool) :
+    List (List Nat) → List Val → List (List Nat) → List Val → List Nat
+  | k :: ks, v :: vs, kb, vb =>
+    (match lookupKV k kb vb with
+     | some w => defRefs onst ceq mt v w ++ (if isDefault ceq mt v w then defRefsKV onst ceq mt ks vs kb vb else [])
+     | none => [])
+  | _, _, _, _ => []
+end
+
+/-- configurations examined while the argument loop processes `a`: those computed by `_is_default` when the
+    default rule is reached (whether or not the argument is then skipped), then those the encoder descends
+    into if the argument is included. -/
+def argDynRefs (onst : Nat → Bool) (ceq : Nat → Nat → Bool) (mt : Nat → Option Bool) (a : Arg) : List Nat :=
+  if ignoredOut mt a || a.generator then [] else
+  (if a.constant then [] else
+    match a.default with
+    | some d => defRefs onst ceq mt d (removeMeta mt a.value)
+    | none => [])
+  ++ (if included ceq mt a then refsVal mt a.value else [])
+
+/-- configurations whose identifier is computed (or for which `detect_loop` emits a cycle reference) while
+    `nd` is hashed: each of these traversals updates the loop flags of the `ConfigPath`. -/
+def nodeRefs (onst : Nat → Bool) (ceq : Nat → Nat → Bool) (mt : Nat → Option Bool) (self : Nat) (nd : Node) : List Nat :=
   (match nd.task with | some t => if t ≠ self then [t] else [] | none => [])
-  ++ ((nd.args.filter (included mt)).map (fun a => refsVal mt a.value)).flatten
+  ++ (nd.args.map (argDynRefs onst ceq mt)).flatten
 
 structure Caches (D : Type) where
   raw : Nat → Option (D × Bool)       -- `_raw_identifier` with its `has_loops`
@@ -47,23 +97,26 @@ def computeAt {D : Type} (hc : HC D) (g : Graph) (c : Caches D) : Nat → List N
     | some d => d
     | none =>
       hc.H (nodeStream
-        (fun m => match relIndex (n :: stack) m with
-          | some k => 11 :: pack8 k
-          | none => hc.emb (computeAt hc g c fuel (n :: stack) m))
+        (ctxCfg (n :: stack) (fun m => hc.emb (computeAt hc g c fuel (n :: stack) m)))
+        (ctxEq (n :: stack) (ctxCfg (n :: stack) (fun m => hc.emb (computeAt hc g c fuel (n :: stack) m))))
         g.mt n (g.node n))
 
 /-- how far above itself the traversal of `n` referenced: 0 = no reference to `n` or above;
-    `k ≥ 1` = a cycle reference reached `k − 1` levels above `n` (so `≥ 1` ⇔ `ConfigPath.has_loop()`). -/
-def escAt {D : Type} (g : Graph) (c : Caches D) : Nat → List Nat → Nat → Nat
+    `k ≥ 1` = a cycle reference reached `k − 1` levels above `n` (so `≥ 1` ⇔ `ConfigPath.has_loop()`).
+    The traversals are those of `nodeRefs`: the encoder's and the two `compute` calls of every
+    `Config`/`Config` comparison made by `_is_default` (decided with the identifiers `computeAt` returns). -/
+def escAt {D : Type} (hc : HC D) (g : Graph) (c : Caches D) : Nat → List Nat → Nat → Nat
   | 0, _, _ => 0
   | fuel + 1, stack, n =>
     match cacheHit g c n with
     | some _ => 0
     | none =>
-      (nodeRefs g.mt n (g.node n)).foldl (fun acc m =>
+      (nodeRefs (fun m => (relIndex (n :: stack) m).isSome)
+          (ctxEq (n :: stack) (ctxCfg (n :: stack) (fun m => hc.emb (computeAt hc g c fuel (n :: stack) m))))
+          g.mt n (g.node n)).foldl (fun acc m =>
         max acc (match relIndex (n :: stack) m with
           | some k => k
-          | none => escAt g c fuel (n :: stack) m - 1)) 0
+          | none => escAt hc g c fuel (n :: stack) m - 1)) 0
 
 structure St (D : Type) where
   g : Graph
@@ -76,7 +129,7 @@ def reqRaw {D : Type} (hc : HC D) (flagStored : Bool) (s : St D) (n : Nat) : St 
   | some (d, _) => (s, d)
   | none =>
     let d := computeAt hc s.g s.c (s.g.size + 1) [] n
-    let flag := flagStored && decide (escAt s.g s.c (s.g.size + 1) [] n ≥ 1)
+    let flag := flagStored && decide (escAt hc s.g s.c (s.g.size + 1) [] n ≥ 1)
     if nd.sealed then ({ s with c := { s.c with raw := updF s.c.raw n (some (d, flag)) } }, d) else (s, d)
 
 def reqRaws {D : Type} (hc : HC D) (flagStored : Bool) : St D → List Nat → St D × List D
